@@ -13,12 +13,13 @@ open PdfVerif PdfVerif.Lexer PdfVerif.Gen.LexTables
 
 /-- The buffered tokenizer equals the buffer-free byte automaton, for every buffer size ≥ 1. -/
 theorem C14_run_eq_spec (b : Nat) (hb : 1 ≤ b) (data : Bytes) : run b data = some (specLex data) := by
-  have h := runLoop_eq b hb (fuelFor data) St.init [] data 0 (by simp [fuelFor, St.init, rank])
-  simpa [run, specLex, specFrom] using h
+  have h := runLoop_eq b hb (fuelFor data) false St.init [] data 0 (by simp)
+    (by simp [fuelFor, St.init, rank]; omega)
+  simpa [run, specLex] using h
 
 /-- Totality with a linear work bound: `3·|data| + 6` scanner calls are never exhausted. -/
 theorem C14_total (b : Nat) (hb : 1 ≤ b) (data : Bytes) :
-    runLoop b (3 * data.length + 6) St.init [] data 0 ≠ none := by
+    runLoop b (3 * data.length + 6) false St.init [] data 0 ≠ none := by
   have h := C14_run_eq_spec b hb data
   simp only [run, fuelFor] at h
   rw [h]; simp
@@ -35,33 +36,37 @@ theorem C14_positions (data : Bytes) :
     (specLex data).Pairwise (fun a b => a.1 ≤ b.1) ∧ ∀ t ∈ specLex data, t.1 < data.length := by
   have hnl : isNONSPC 10 = false := by decide +kernel
   have hf := foldBytes_between data St.init 0 (Nat.le_refl _)
-  have hfl := flush_toks hnl (foldBytes St.init data 0).1 data.length
+  have hfl := stepN_nl hnl 3 (foldBytes St.init data 0).1 (0 + data.length)
   have htp : St.init.tpos = 0 := rfl
   rw [htp] at hf
+  have hspec : specLex data = (foldBytes St.init data 0).2 ++
+      (stepN 3 (foldBytes St.init data 0).1 10 (0 + data.length)).2 := by
+    unfold specLex
+    rw [foldBytes_append]
+    simp [foldBytes, stepByte]
+  rw [hspec]
   refine ⟨?_, ?_⟩
-  · unfold specLex
-    refine List.pairwise_append.mpr ⟨hf.2.2.1, ?_, ?_⟩
+  · refine List.pairwise_append.mpr ⟨hf.2.2.1, ?_, ?_⟩
     · rw [List.pairwise_iff_forall_sublist]
       intro a b hab
-      have ha := hfl a (hab.subset (by simp))
-      have hb := hfl b (hab.subset (by simp))
+      have ha := hfl.2 a (hab.subset (by simp))
+      have hb := hfl.2 b (hab.subset (by simp))
       omega
     · intro a ha b hb
       have := (hf.2.2.2 a ha).2
-      have := hfl b hb
+      have := hfl.2 b hb
       omega
   · cases data with
     | nil =>
       have he : specLex [] = [] := by decide +kernel
-      intro t ht; rw [he] at ht; simp at ht
+      rw [← hspec, he]; simp
     | cons c tl =>
       intro t ht
-      unfold specLex at ht
       have hmax := hf.2.1
       simp only [List.length_cons] at hmax ⊢
       rcases List.mem_append.mp ht with h | h
       · have := (hf.2.2.2 t h).2; omega
-      · have := hfl t h; omega
+      · have := hfl.2 t h; omega
 
 /-- The same for the buffered tokenizer at any buffer size. -/
 theorem C14_positions_run (b : Nat) (hb : 1 ≤ b) (data : Bytes) :
@@ -71,9 +76,8 @@ theorem C14_positions_run (b : Nat) (hb : 1 ≤ b) (data : Bytes) :
 /-- Nothing but end of input is signalled: no exception of a Python primitive reached by the scanners
     (`int(.., 16)`, `int(.., 8)`, `bytes((v,))`, the HEX_PAIR substitution) escapes, on any byte string.
     (`int()`/`float()` of a number token raise ValueError inside a `try` of the scanner: no token.) -/
-theorem C14_only_eof (data : Bytes) : ∀ t ∈ specLex data, isErr t.2 = false := by
-  have hf := foldBytes_ok data St.init 0 inv_init
-  exact noErr_append hf.2 (call_ok _ [10] data.length hf.1)
+theorem C14_only_eof (data : Bytes) : ∀ t ∈ specLex data, isErr t.2 = false :=
+  (foldBytes_ok (data ++ [10]) St.init 0 inv_init).2
 
 theorem C14_only_eof_run (b : Nat) (hb : 1 ≤ b) (data : Bytes) :
     ∃ ts, run b data = some ts ∧ ∀ t ∈ ts, isErr t.2 = false :=
